@@ -502,6 +502,36 @@ func (env *Env) trCall(x ECall) TV {
 			payload = fmt.Sprintf("(%s %s)", eng.boxFn(so), val)
 		}
 		return TV{T: fmt.Sprintf("(mk-iface %s %s)", eng.typeIDTerm(el), payload), S: "Iface"}
+	case "as":
+		// as("pkg.Type", x): x viewed as a value of the named Go type (same representation)
+		t := eng.lookupNamed(args[0].(EStr).Val)
+		if t == nil {
+			env.fail("as: unknown type %s", args[0])
+		}
+		v := env.tr(args[1])
+		if eng.sorts.sortOf(t) != v.S {
+			env.fail("as: %s has sort %s, value has %s", args[0], eng.sorts.sortOf(t), v.S)
+		}
+		return TV{T: v.T, S: v.S, G: t}
+	case "mk":
+		// mk("pkg.Struct", f1, f2, ...): a struct value
+		t := eng.lookupNamed(args[0].(EStr).Val)
+		info := eng.sorts.structInfoOf(t)
+		if info == nil || len(args)-1 != len(info.fields) {
+			env.fail("mk: %s is not a struct with %d fields", args[0], len(args)-1)
+		}
+		var ts []string
+		for i, a := range args[1:] {
+			v := env.tr(a)
+			if v.S == "Nil" {
+				v = env.nilFor(TV{S: info.fsorts[i]})
+			}
+			if v.S != info.fsorts[i] {
+				env.fail("mk: field %d has sort %s, want %s", i, v.S, info.fsorts[i])
+			}
+			ts = append(ts, v.T)
+		}
+		return TV{T: "(mk-" + info.sort + " " + strings.Join(ts, " ") + ")", S: info.sort, G: t}
 	case "boxed":
 		// boxed(x): the interface value holding x (as MakeInterface would build it)
 		v := env.tr(args[0])
